@@ -2,6 +2,7 @@ package rules
 
 import (
 	"go/ast"
+	"go/token"
 	"go/types"
 	"strings"
 
@@ -22,6 +23,14 @@ func init() {
 			"ExecutionEngine.Execute reaches planning only through the success edges of normalization (when needed), then of ValidateForSchema (err == nil ∧ Valid), and reaches the resolver only when planning reported no error; ValidateForSchema validates with DefaultOperationValidator and the validator reports Invalid whenever the report has errors. " +
 			"It does not decide accept ⇔ spec-valid for all documents (that is the rules' own logic).",
 		Mutants: []Mutant{
+			{Name: "arguments are compared position by position (reverts part of the F59 fix)", File: "v2/pkg/ast/ast_argument.go", Rule: "C04-R11", Key: "Document.ArgumentSetsAreEquals/unordered-elements-paired-by-name",
+				Old: "\tfor _, leftArgument := range left {\n\t\trightArgument, ok := d.argumentByName(right, d.ArgumentNameBytes(leftArgument))\n\t\tif !ok || ", New: "\tfor i, leftArgument := range left {\n\t\trightArgument, ok := right[i], true\n\t\tif !d.ArgumentsAreEqual(leftArgument, rightArgument) || !ok || "},
+			{Name: "input object fields are compared position by position (reverts part of the F59 fix)", File: "v2/pkg/ast/ast_object_field.go", Rule: "C04-R11", Key: "Document.ObjectValuesAreEqual/unordered-elements-paired-by-name",
+				Old: "\tfor _, leftField := range leftFields {\n\t\trightField, ok := d.objectFieldByName(rightFields, d.ObjectFieldNameBytes(leftField))\n\t\tif !ok || ", New: "\tfor i, leftField := range leftFields {\n\t\trightField, ok := rightFields[i], true\n\t\tif !d.ObjectFieldsAreEqual(leftField, rightField) || !ok || "},
+			{Name: "a default value also relaxes non-null below list wrappers (seeded changes C04-1, C04-11)", File: "v2/pkg/astvalidation/operation_rule_valid_arguments.go", Rule: "C04-R9", Key: "valuesVisitor.operationTypeSatisfiesDefinitionType/default-relaxes-only-the-outermost-level",
+				Old: "\t\topKind = v.operation.Types[operationTypeRef].TypeKind\n\t\tdefKind = v.definition.Types[definitionTypeRef].TypeKind\n", New: "\t\topKind = v.operation.Types[operationTypeRef].TypeKind\n\t\tdefKind = v.definition.Types[definitionTypeRef].TypeKind\n\t\tif opKind != ast.TypeKindNonNull && defKind == ast.TypeKindNonNull && hasDefaultValue {\n\t\t\tdefinitionTypeRef = v.definition.Types[definitionTypeRef].OfType\n\t\t\tcontinue\n\t\t}\n"},
+			{Name: "directive sets are compared as sets, not multisets (seeded change C04-12)", File: "v2/pkg/ast/ast_directive.go", Rule: "C04-R10", Key: "Document.DirectiveSetsAreEqual/counted-matching-is-one-to-one",
+				Old: "\t\t\tif matched[j] {\n\t\t\t\tcontinue\n\t\t\t}\n", New: ""},
 			{Name: "Walker no longer visits the directives of a schema definition (never validated)", File: "v2/pkg/astvisitor/visitor.go", Rule: "C04-R5", Key: "walker-siblings/walkSchemaDefinition",
 				Old: "\tif w.document.SchemaDefinitions[ref].HasDirectives {\n\t\tfor _, i := range w.document.SchemaDefinitions[ref].Directives.Refs {\n\t\t\tw.walkDirective(i, skipFor)", New: "\tif false {\n\t\tfor _, i := range []int{} {\n\t\t\tw.walkDirective(i, skipFor)"},
 			{Name: "validation memo ignores the validator options (seeded change C04-13)", File: gqlValidateGo, Rule: "C04-R4", Key: "memo-only-without-options",
@@ -59,6 +68,9 @@ func init() {
 }
 
 func runC04(r *fw.Run) {
+	defer c04DefaultRelaxationOnlyOutermost(r)
+	defer c04CountedMatchingIsOneToOne(r)
+	defer c04UnorderedElementsPairedByName(r)
 	p := r.Prog
 	pk := p.Pkg("astvalidation")
 	if pk == nil {
@@ -440,4 +452,385 @@ func isResolverEntry(info *types.Info, c *ast.CallExpr) bool {
 		return false
 	}
 	return strings.HasPrefix(fn.Name(), "ResolveGraphQL") || strings.HasPrefix(fn.Name(), "ArenaResolveGraphQL") || strings.HasPrefix(fn.Name(), "AsyncResolveGraphQL")
+}
+
+// c04DefaultRelaxationOnlyOutermost (R9): "a nullable variable may be used at a non-null location when a default value
+// exists" (VariablesInAllowedPosition) relaxes the outermost non-null only: [Int] does not fit [Int!] however many defaults
+// exist. In every type-compatibility function that walks two type refs level by level (a loop advancing a ref parameter
+// through OfType), the boolean parameter that carries "has a default" is therefore not read inside that loop — unless the
+// loop body sets it to false on every way to the next iteration (consumed at the first level).
+func c04DefaultRelaxationOnlyOutermost(r *fw.Run) {
+	p := r.Prog
+	r.Rule("C04-R9", "in a level-by-level type compatibility walk the has-default relaxation applies to the outermost level only: the boolean parameter is not read inside the unnesting loop (or is cleared on every way round it)")
+	n := 0
+	for _, fi := range p.Funcs("astvalidation") {
+		info := fi.Info()
+		sig := fi.Obj.Type().(*types.Signature)
+		var flags, refs []*types.Var
+		for i := 0; i < sig.Params().Len(); i++ {
+			pv := sig.Params().At(i)
+			switch {
+			case types.Identical(pv.Type(), types.Typ[types.Bool]):
+				flags = append(flags, pv)
+			case types.Identical(pv.Type(), types.Typ[types.Int]):
+				refs = append(refs, pv)
+			}
+		}
+		if len(flags) == 0 || len(refs) < 2 {
+			continue
+		}
+		fw.WalkAll(fi.Decl.Body, func(nd ast.Node) bool {
+			loop, ok := nd.(*ast.ForStmt)
+			if !ok {
+				return true
+			}
+			// an unnesting loop: assigns a ref parameter from …OfType
+			unnests := false
+			fw.WalkAll(loop.Body, func(m ast.Node) bool {
+				as, isAs := m.(*ast.AssignStmt)
+				if !isAs || len(as.Lhs) != len(as.Rhs) {
+					return true
+				}
+				for i, l := range as.Lhs {
+					id, isID := l.(*ast.Ident)
+					if !isID {
+						continue
+					}
+					for _, pv := range refs {
+						if info.ObjectOf(id) == pv {
+							if fv, _ := fw.Field(info, as.Rhs[i]); fv != nil && fv.Name() == "OfType" {
+								unnests = true
+							}
+						}
+					}
+				}
+				return true
+			})
+			if !unnests {
+				return true
+			}
+			for _, flag := range flags {
+				var read ast.Node
+				fw.WalkAll(loop.Body, func(m ast.Node) bool {
+					if id, isID := m.(*ast.Ident); isID && info.Uses[id] == flag && read == nil {
+						read = id
+					}
+					return true
+				})
+				n++
+				ok := read == nil
+				if !ok {
+					// consumed: cleared on every way to the next iteration
+					in := fw.NewInterp(fi)
+					in.H = fw.Hooks{Node: func(m ast.Node, st *fw.State) {
+						if as, isAs := m.(*ast.AssignStmt); isAs && len(as.Lhs) == len(as.Rhs) {
+							for i, l := range as.Lhs {
+								if id, isID := l.(*ast.Ident); isID && info.ObjectOf(id) == flag {
+									if v, isConst := fw.ConstVal(info, as.Rhs[i]); isConst && v == "false" {
+										st.Set("cleared")
+									} else {
+										st.Kill("cleared")
+									}
+								}
+							}
+						}
+					}}
+					next, _ := in.RunLoopBody(loop.Body.List, nil)
+					ok = next == nil || next.Must("cleared")
+				}
+				pos := p.Pos(loop.Pos())
+				if read != nil {
+					pos = p.Pos(read.Pos())
+				}
+				r.Check(ok, "C04-R9", fi.Name()+"/default-relaxes-only-the-outermost-level", pos, fi.Name()+" does not consult "+flag.Name()+" inside its unnesting loop",
+					flag.Name()+" is read inside the loop that unnests the two types: a default value then also relaxes a non-null below a list wrapper ([Int] with a default is admitted at [Int!]), and a list with null items reaches a location that forbids them")
+			}
+			return true
+		})
+	}
+	r.Expect("C04-R9", "has-default flags of level-by-level type compatibility walks", n, 1)
+}
+
+// c04CountedMatchingIsOneToOne (R10): an equality of two lists that may hold duplicates (directives are repeatable) decided
+// by "same length, and every left element finds an equal right element" is a multiset equality only when a right element
+// can be used once: [@a, @a, @b] and [@a, @b, @b] have the same length and every left element occurs on the right. Where a
+// function of package ast has that shape — an early false on differing lengths, then nested loops whose inner loop leaves
+// at the first equal element — the inner loop skips the elements already used (an index expression on the inner loop's
+// key, set on the match edge and tested before the comparison). Other shapes (positional comparison, sorting, counting)
+// are not this rule's business; the seeded mutant is its positive control.
+func c04CountedMatchingIsOneToOne(r *fw.Run) {
+	p := r.Prog
+	r.Rule("C04-R10", "a list equality decided by equal lengths plus a nested-loop search for a partner uses every right element at most once (used elements are marked on the match edge and skipped)")
+	n := 0
+	for _, fi := range p.Funcs("ast") {
+		info := fi.Info()
+		sig := fi.Obj.Type().(*types.Signature)
+		if sig.Results().Len() != 1 || !types.Identical(sig.Results().At(0).Type(), types.Typ[types.Bool]) {
+			continue
+		}
+		// early false on differing lengths
+		lenTest := false
+		fw.WalkAll(fi.Decl.Body, func(nd ast.Node) bool {
+			if is, ok := nd.(*ast.IfStmt); ok {
+				a := fw.Atom(info, is.Cond, true)
+				if a.Kind == "Ne" && isLenCall(info, a.X) && isLenCall(info, a.Y) {
+					lenTest = true
+				}
+			}
+			return true
+		})
+		if !lenTest {
+			continue
+		}
+		fw.WalkAll(fi.Decl.Body, func(nd ast.Node) bool {
+			outer, ok := nd.(*ast.RangeStmt)
+			if !ok {
+				return true
+			}
+			for _, st := range outer.Body.List {
+				inner, isRange := st.(*ast.RangeStmt)
+				if !isRange {
+					continue
+				}
+				key, _ := inner.Key.(*ast.Ident)
+				// the match edge: an if whose body breaks out of the inner loop
+				var match *ast.IfStmt
+				for _, s2 := range inner.Body.List {
+					if is, isIf := s2.(*ast.IfStmt); isIf {
+						for _, s3 := range is.Body.List {
+							if br, isBr := s3.(*ast.BranchStmt); isBr && br.Tok == token.BREAK {
+								match = is
+							}
+						}
+					}
+				}
+				if match == nil {
+					continue
+				}
+				n++
+				marked, tested := false, false
+				usesKey := func(e ast.Expr) bool {
+					ix, isIx := ast.Unparen(e).(*ast.IndexExpr)
+					if !isIx || key == nil {
+						return false
+					}
+					id, isID := ast.Unparen(ix.Index).(*ast.Ident)
+					return isID && info.ObjectOf(id) == info.ObjectOf(key)
+				}
+				for _, s3 := range match.Body.List {
+					if as, isAs := s3.(*ast.AssignStmt); isAs && len(as.Lhs) == 1 && usesKey(as.Lhs[0]) {
+						marked = true
+					}
+				}
+				for _, s2 := range inner.Body.List {
+					if s2 == ast.Stmt(match) {
+						break
+					}
+					if is, isIf := s2.(*ast.IfStmt); isIf {
+						a := fw.Atom(info, is.Cond, true)
+						if a.Kind == "True" && usesKey(a.X) && len(is.Body.List) == 1 {
+							if br, isBr := is.Body.List[0].(*ast.BranchStmt); isBr && br.Tok == token.CONTINUE {
+								tested = true
+							}
+						}
+					}
+				}
+				r.Check(marked && tested, "C04-R10", fi.Name()+"/counted-matching-is-one-to-one", p.Pos(inner.Pos()), fi.Name()+" marks the right element it matched and skips marked elements",
+					fi.Name()+" compares lengths and then lets several left elements match the same right element: [@a, @a, @b] and [@a, @b, @b] count as equal, so two selections that differ in their (repeatable) directives are merged as identical")
+			}
+			return true
+		})
+	}
+	if n == 0 {
+		r.Pass("C04-R10", "no-counted-nested-loop-matching", "", "no list equality of package ast has the length-plus-nested-search shape (the rule has nothing to decide; its mutant is the positive control)", false)
+	}
+}
+
+func isLenCall(info *types.Info, e ast.Expr) bool {
+	c, ok := ast.Unparen(e).(*ast.CallExpr)
+	return ok && fw.Builtin(info, c) == "len"
+}
+
+// c04UnorderedElementsPairedByName (R11): the arguments of a field or directive and the fields of an input object are
+// unordered sets with unique names (spec: "fieldA and fieldB must have identical sets of arguments"; "input object fields
+// are unordered"). An equality of two such lists therefore finds the partner of an element by its name; pairing them by
+// position makes f(a: 1, b: 2) and f(b: 2, a: 1) "differing fields", and FieldsInSetCanMerge rejects a valid operation.
+// The rule works on refs: a parameter is a K-ref when it indexes Document.<K> or is handed unchanged to a K-ref parameter;
+// in every list equality of package ast (early false on differing lengths) whose elements are Argument- or
+// ObjectField-refs, no loop variable indexes two lists whose elements both reach such parameters of one call.
+func c04UnorderedElementsPairedByName(r *fw.Run) {
+	p := r.Prog
+	r.Rule("C04-R11", "a list equality over arguments or input object fields (unordered, uniquely named) never pairs the elements of the two lists by position: the partner is looked up by name")
+	unordered := map[string]bool{"Arguments": true, "ObjectFields": true}
+	// K-ref parameter summary
+	type pk struct {
+		fn  *types.Func
+		idx int
+	}
+	memo := map[pk]string{}
+	visiting := map[pk]bool{}
+	var kindOfParam func(fi *fw.FuncInfo, idx int) string
+	kindOfParam = func(fi *fw.FuncInfo, idx int) string {
+		key := pk{fi.Obj, idx}
+		if k, ok := memo[key]; ok {
+			return k
+		}
+		if visiting[key] {
+			return ""
+		}
+		visiting[key] = true
+		defer delete(visiting, key)
+		info := fi.Info()
+		sig := fi.Obj.Type().(*types.Signature)
+		if idx >= sig.Params().Len() {
+			return ""
+		}
+		pv := sig.Params().At(idx)
+		kind := ""
+		fw.WalkAll(fi.Decl.Body, func(nd ast.Node) bool {
+			if kind != "" {
+				return false
+			}
+			switch x := nd.(type) {
+			case *ast.IndexExpr:
+				if id, ok := ast.Unparen(x.Index).(*ast.Ident); ok && info.Uses[id] == pv {
+					if fv, _ := fw.Field(info, x.X); fv != nil && unordered[fv.Name()] && fw.IsFieldSel(info, x.X, "ast", "Document", fv.Name()) {
+						kind = fv.Name()
+					}
+				}
+			case *ast.CallExpr:
+				callee := p.FuncOf(fw.Callee(info, x))
+				if callee == nil || callee.Pkg != fi.Pkg {
+					return true
+				}
+				for i, arg := range x.Args {
+					if id, ok := ast.Unparen(arg).(*ast.Ident); ok && info.Uses[id] == pv {
+						if k := kindOfParam(callee, i); k != "" {
+							kind = k
+						}
+					}
+				}
+			}
+			return true
+		})
+		memo[key] = kind
+		return kind
+	}
+	n := 0
+	for _, fi := range p.Funcs("ast") {
+		info := fi.Info()
+		sig := fi.Obj.Type().(*types.Signature)
+		if sig.Results().Len() != 1 || !types.Identical(sig.Results().At(0).Type(), types.Typ[types.Bool]) {
+			continue
+		}
+		lenTest := false
+		fw.WalkAll(fi.Decl.Body, func(nd ast.Node) bool {
+			if is, ok := nd.(*ast.IfStmt); ok {
+				a := fw.Atom(info, is.Cond, true)
+				if a.Kind == "Ne" && isLenCall(info, a.X) && isLenCall(info, a.Y) {
+					lenTest = true
+				}
+			}
+			return true
+		})
+		if !lenTest {
+			continue
+		}
+		// local variables holding a list element: v := xs[i] / for _, v := range xs  → (list expression key, index object or nil)
+		type elem struct {
+			list string
+			idx  types.Object
+		}
+		elems := map[types.Object]elem{}
+		note := func(lhs ast.Expr, rhs ast.Expr) {
+			id, ok := lhs.(*ast.Ident)
+			ix, isIx := ast.Unparen(rhs).(*ast.IndexExpr)
+			if !ok || !isIx || info.ObjectOf(id) == nil {
+				return
+			}
+			if _, isSlice := info.TypeOf(ix.X).Underlying().(*types.Slice); !isSlice {
+				return
+			}
+			var io types.Object
+			if iid, isID := ast.Unparen(ix.Index).(*ast.Ident); isID {
+				io = info.ObjectOf(iid)
+			}
+			elems[info.ObjectOf(id)] = elem{fw.ExprKey(info, ix.X), io}
+		}
+		fw.WalkAll(fi.Decl.Body, func(nd ast.Node) bool {
+			switch x := nd.(type) {
+			case *ast.AssignStmt:
+				if len(x.Lhs) == len(x.Rhs) {
+					for i := range x.Lhs {
+						note(x.Lhs[i], x.Rhs[i])
+					}
+				}
+			case *ast.RangeStmt:
+				if v, ok := x.Value.(*ast.Ident); ok && info.ObjectOf(v) != nil {
+					var io types.Object
+					if k, isID := x.Key.(*ast.Ident); isID && k.Name != "_" {
+						io = info.ObjectOf(k)
+					}
+					if _, isSlice := info.TypeOf(x.X).Underlying().(*types.Slice); isSlice {
+						elems[info.ObjectOf(v)] = elem{fw.ExprKey(info, x.X), io}
+					}
+				}
+			}
+			return true
+		})
+		elemOfArg := func(arg ast.Expr) (elem, bool) {
+			arg = ast.Unparen(arg)
+			if id, ok := arg.(*ast.Ident); ok {
+				e, found := elems[info.ObjectOf(id)]
+				return e, found
+			}
+			if ix, ok := arg.(*ast.IndexExpr); ok {
+				if _, isSlice := info.TypeOf(ix.X).Underlying().(*types.Slice); isSlice {
+					var io types.Object
+					if iid, isID := ast.Unparen(ix.Index).(*ast.Ident); isID {
+						io = info.ObjectOf(iid)
+					}
+					return elem{fw.ExprKey(info, ix.X), io}, true
+				}
+			}
+			return elem{}, false
+		}
+		kind, positional := "", ""
+		fw.WalkAll(fi.Decl.Body, func(nd ast.Node) bool {
+			c, ok := nd.(*ast.CallExpr)
+			if !ok {
+				return true
+			}
+			callee := p.FuncOf(fw.Callee(info, c))
+			if callee == nil || callee.Pkg != fi.Pkg {
+				return true
+			}
+			var ks []elem
+			for i, arg := range c.Args {
+				e, isElem := elemOfArg(arg)
+				if !isElem {
+					continue
+				}
+				if k := kindOfParam(callee, i); k != "" {
+					kind = k
+					ks = append(ks, e)
+				}
+			}
+			for i := 0; i < len(ks); i++ {
+				for j := i + 1; j < len(ks); j++ {
+					if ks[i].list != ks[j].list && ks[i].idx != nil && ks[i].idx == ks[j].idx {
+						positional = p.Pos(c.Pos())
+					}
+				}
+			}
+			return true
+		})
+		if kind == "" {
+			continue
+		}
+		n++
+		r.Check(positional == "", "C04-R11", fi.Name()+"/unordered-elements-paired-by-name", p.Pos(fi.Decl.Pos()), fi.Name()+" (an equality of two lists of "+kind+" refs) does not pair the elements by position",
+			fi.Name()+" compares element i of one "+kind+" list with element i of the other ("+positional+"): the same arguments / input object fields written in another order count as different, and field merging rejects a valid operation (f(a: 1, b: 2) next to f(b: 2, a: 1))")
+	}
+	r.Expect("C04-R11", "list equalities over arguments / input object fields", n, 2)
 }
